@@ -113,6 +113,45 @@ def run_h2(scen, wd, maxruns, nproc=12):
     return files, sum(counts)
 
 
+def design_mc(wd, sd, K, consts, invariants, timeout, ngraphs=None, workers=NCPU):
+    """Design-level model checking of spec/NinjaImplMC.tla over graphs exported from Families.tla (family "mc").
+    Returns dict(states, distinct, finished).  An invariant violation of the design model is reported as a broken
+    check (exit 2): it is a candidate only, to be confirmed on the real code by the trace-validation part."""
+    gp = export_family("mc", K, 1, sd)
+    graphs = [l for l in open(gp) if l.strip()]
+    if ngraphs:
+        graphs = graphs[:ngraphs]
+    gfile = os.path.join(wd, "graphs.ndjson")
+    open(gfile, "w").write("".join(graphs))
+    cfg = os.path.join(wd, "mc_impl.cfg")
+    open(cfg, "w").write("SPECIFICATION Spec\nCONSTANTS\n" + "".join("  %s = %s\n" % kv for kv in consts.items()) +
+                         "".join("INVARIANT %s\n" % i for i in invariants) + "CHECK_DEADLOCK FALSE\n")
+    r = run_tlc("NinjaImplMC.tla", cfg, env={"GRAPHS": gfile}, workers=workers, extra=["-noGenerateSpecTE"], timeout=timeout, xmx="20g")
+    finished = "Model checking completed" in r["out"]
+    if "is violated" in r["out"] or ("Error:" in r["out"] and not finished and r["rc"] != 124):
+        raise Broken("design-level model NinjaImplMC: %s\n%s" % (r["error"], r["out"][-3000:]))
+    import re
+    m = re.findall(r"(\d[\d,]*) states generated.*?(\d[\d,]*) distinct states found", r["out"])
+    st, di = (int(m[-1][0].replace(",", "")), int(m[-1][1].replace(",", ""))) if m else (0, 0)
+    return {"states": st, "distinct": di, "finished": finished, "graphs": len(graphs), "constants": consts, "invariants": invariants}
+
+
+def impl_conformance(files, wd):
+    """Strict conformance of the scan/plan transcription (ImplTrace.tla) on the recorded executions: information only."""
+    def go(pair):
+        sp, tp = pair
+        vp = tp + ".impl"
+        r = run_tlc("ImplTrace.tla", "ImplTrace.cfg", env={"TRACE": tp, "VIOL": vp}, workers=1, timeout=3000)
+        if r["error"] or not os.path.exists(vp):
+            return {"checked": 0, "agree": 0, "error": r["error"]}
+        d = json.loads(open(vp).read().split("\n")[0])
+        return {"checked": d["stats"]["checked"], "agree": d["stats"]["agree"], "bad": d["bad"][:2]}
+    res = parallel(go, files)
+    return {"checked": sum(r["checked"] for r in res), "accepted": sum(r["agree"] for r in res),
+            "rejected": sum(r["checked"] - r["agree"] for r in res), "errors": [r["error"] for r in res if r.get("error")][:2],
+            "first_rejections": [b for r in res for b in r.get("bad", [])][:2]}
+
+
 def validate(files, wd, spec="RefTrace"):
     def go(pair):
         sp, tp = pair
@@ -155,7 +194,7 @@ def summarize_event(ev):
     return json.dumps(keep)[:300]
 
 
-def engine_check(pid, fams, tier_, maxruns, level_note="", props=None, extra_cov=None, level="model_checking", h2=None):
+def engine_check(pid, fams, tier_, maxruns, level_note="", props=None, extra_cov=None, level="model_checking", h2=None, design=None, impl=False):
     """Runs the pipeline and reports for property pid.  Returns exit code."""
     t0 = time.time()
     sd = seed()
@@ -168,6 +207,7 @@ def engine_check(pid, fams, tier_, maxruns, level_note="", props=None, extra_cov
     wd = scratch(pid)
     try:
         files, execs, capped = run_h1(bins["h1"], scen, wd, maxruns, sd)
+        h1files = list(files)
         h2execs = 0
         if h2:
             scen2 = load_scenarios(h2["fams"], sd)
@@ -181,6 +221,8 @@ def engine_check(pid, fams, tier_, maxruns, level_note="", props=None, extra_cov
             files2, h2execs = run_h2(scen2, wd, h2.get("maxruns", 4))
             files = files + files2
         results = validate(files, wd)
+        dres = design_mc(wd, sd, **design) if design else None
+        ires = impl_conformance(h1files, wd) if impl else None
         known = {k["id"]: k for k in load_known_findings() if k.get("status") == "open" and pid in k.get("properties", [])}
         found, known_hits = [], {}
         stats = Counter()
@@ -217,7 +259,8 @@ def engine_check(pid, fams, tier_, maxruns, level_note="", props=None, extra_cov
                         evs.append({k: v for k, v in j.items() if k not in ("tree", "logs", "g", "read", "pools")})
                 samples.append({"scenario": json.loads(open(sp).readline()), "trace_events": evs[:40]})
         cov = {
-            "states": states, "transitions": states,
+            "states": states + (dres["distinct"] if dres else 0), "transitions": states + (dres["states"] if dres else 0),
+            "design_model": dres, "impl_conformance": ires,
             "traces_validated_against_impl": stats["execs"],
             "samples": samples,
             "evaluations": stats["execs"],
